@@ -42,7 +42,17 @@ var c08Programs = []c08prog{
 	{"syntaxerr", "vh.log(('pre', TAG))\ncompile('if 1:\\n\\tx = 1\\n        y = 2\\n', 'file' + str(TAG) + '.py', 'exec')\n"},
 	{"indenterr", "vh.log(('pre', TAG))\ncompile('\\n' * TAG + '  x = 1\\n', 'ind' + str(TAG) + '.py', 'exec')\n"},
 	{"environ", "import os\nvh.log(('pre', os.environ.get('C08_VAR', 'unset')))\nos.environ['C08_VAR'] = str(TAG)\nvh.log(('post', os.environ.get('C08_VAR')))\n"},
+	// how deep a context may recurse is the context's own business: the depth reached before and
+	// after the limit is changed (where the interpreter lets a program change it)
+	{"reclimit", "import sys\ndef d(n):\n    try:\n        return d(n + 1)\n    except RuntimeError:\n        return n\nvh.log(('pre', d(0) > 500))\ntry:\n    sys.setrecursionlimit(100 + TAG)\n    vh.log(('post', sys.getrecursionlimit(), d(0) < 200))\nexcept NotImplementedError:\n    vh.log(('post', 'unsupported'))\n"},
+	// the namespace of a built-in type, reached as a mapping instead of through setattr
+	{"typedictview", "for T in (int, str, list):\n    d = getattr(T, '__dict__', None)\n    if d is None:\n        vh.log(('pre', 'noview'))\n        continue\n    vh.log(('pre', 'c08view' in d))\n    try:\n        d['c08view'] = TAG\n        vh.log(('post', 'set'))\n    except TypeError:\n        vh.log(('post', 'refused'))\n"},
+	{"reclimitlite", "import sys\ntry:\n    vh.log(('pre', sys.getrecursionlimit() >= 500))\n    sys.setrecursionlimit(100 + TAG)\n    vh.log(('post', sys.getrecursionlimit()))\nexcept NotImplementedError:\n    vh.log(('post', 'unsupported'))\n"},
 }
+
+// c08SeqOnly: programs left out of the instruction-level interleaving part (a recursion to the
+// limit is ~10^4 scheduling points per run; its interleavings do not fit the budget)
+var c08SeqOnly = map[string]bool{"reclimit": true}
 
 func init() {
 	py.RegisterModule(&py.ModuleImpl{
@@ -276,6 +286,9 @@ func c08Run(rc *core.RunCtx) {
 				if !rc.Take() {
 					continue
 				}
+				if c08SeqOnly[a.name] || c08SeqOnly[b.name] {
+					continue
+				}
 				a, b := a, b
 				fields := core.Fields{"part": "interleaved", "first": a.name, "second": b.name, "bound": itoa(bound)}
 				input := fmt.Sprintf("goroutine 1: context 1 runs %s (TAG=1) || goroutine 2: context 2 runs %s (TAG=2); all interleavings at VM instructions, preemption bound %d", a.name, b.name, bound)
@@ -399,6 +412,22 @@ func c08ExpectedLog(p c08prog, tag int) string {
 		return "('pre','unset');('post','set')|('pre','unset');('post','refused')"
 	case "environ":
 		return "('pre','unset');('post','" + t + "')"
+	case "typedictview":
+		// per type: no mapping view at all, or a view in which another context's key is never seen
+		one := []string{"('pre','noview')", "('pre',False);('post','set')", "('pre',False);('post','refused')"}
+		var alts []string
+		for _, a := range one {
+			for _, b := range one {
+				for _, c := range one {
+					alts = append(alts, a+";"+b+";"+c)
+				}
+			}
+		}
+		return strings.Join(alts, "|")
+	case "reclimit":
+		return "('pre',True);('post','unsupported')|('pre',True);('post'," + itoa(100+tag) + ",True)"
+	case "reclimitlite":
+		return "('post','unsupported')|('pre',True);('post'," + itoa(100+tag) + ")"
 	case "excattr":
 		// the attribute a context sets on an exception it caught is never there for another
 		// context (whether setting it is allowed at all is not the point)
@@ -423,7 +452,7 @@ func init() {
 		Level:    "model_checking",
 		Mode:     "ov",
 		RacePass: true,
-		Rule: "17 programs, each reading, mutating and re-reading one piece of state reachable from Python (module global, sys.path, sys.argv, a rebound builtin, attributes of a Go module, state of a source module registered once, class attribute, mutable default, the harness log, closures/generators, a built-in type's dict, os.environ, a source file module that every context finds under the same name on its own search path, attributes of the exception objects the runtime raises for common errors, the file and line of a syntax error read back after the other context ran), every context running a code object shared by all contexts. " +
+		Rule: "20 programs, each reading, mutating and re-reading one piece of state reachable from Python (module global, sys.path, sys.argv, a rebound builtin, attributes of a Go module, state of a source module registered once, class attribute, mutable default, the harness log, closures/generators, a built-in type's dict, os.environ, a source file module that every context finds under the same name on its own search path, attributes of the exception objects the runtime raises for common errors, the file and line of a syntax error read back after the other context ran), every context running a code object shared by all contexts. " +
 			"(a) all ordered pairs (thorough: triples) run back to back in distinct contexts of one process; (b) all pairs on two goroutines under the cooperative scheduler with a scheduling point at every VM instruction, every schedule within the preemption bound. Oracle: each context's log equals the log the program produces in a context nothing else can influence. Every case is non-trivial.",
 		Run: c08Run,
 		Assumptions: []string{"the scheduler cannot preempt inside a Go builtin; transient shared state used within one builtin call is reachable only by the auxiliary -race pass",
